@@ -322,6 +322,19 @@ fn histories(rep: &mut Report, depth: usize) {
         all.extend(next.iter().filter(|s| matches!(ops[*s.last().unwrap()], HOp::WriteA | HOp::WriteB) && s.iter().any(|i| matches!(ops[*i], HOp::LogBase | HOp::LogSmall))).cloned());
         seqs = next;
     }
+    // one level deeper from a non-initial state: every history of length depth+1 that starts with the
+    // two-region table (the only state in which a SET_LOG_BASE can be *rejected*, so that "accepted
+    // log, rejected log, reconnect, table change, write" fits into the bound)
+    let ab = ops.iter().position(|o| *o == HOp::TableAB).unwrap();
+    for s in seqs.iter().filter(|s| s[0] == ab) {
+        for i in 0..ops.len() {
+            if matches!(ops[i], HOp::WriteA | HOp::WriteB) && s.iter().any(|i| matches!(ops[*i], HOp::LogBase | HOp::LogSmall)) {
+                let mut t = s.clone();
+                t.push(i);
+                all.push(t);
+            }
+        }
+    }
     for seq in all {
         let mut h = match daemon() {
             Ok(h) => h,
@@ -620,7 +633,7 @@ pub fn run(rep: &mut Report) {
     rep.sample(json!({"layout":"two-regions-sharing-a-log-byte","write":{"gpa":"0x4fff","len":2},"expect_log_byte0":"0b00110000"}));
     rep.sample(json!({"history":["TableA","LogBase","AddB","WriteB"],"expect":"bit of page 5 set (logging stays in force for memory added later)"}));
     rep.sample(json!({"schedule":"2 writers x 1 mark","expect":"byte 0 == OR of both bits in every interleaving of the atomic accesses"}));
-    rep.rule = "inputs: 8 region layouts (1-4 regions sharing log bytes, adjacent, crossing a log-byte boundary, three unaligned ones) x log window at file offset 4096 / 8192 between guard pages x log sizes {needed-1, needed, needed+1, 4096} x writes (offset, len) over {0,1,4095,4096,4097,8191,8192,8193,end-4097,end-4096,end-2,end-1} x {0,1,2,4095,4096,4097,8191,8192,8193,size,to-end} through GuestMemory::write_slice, writes that start in an already dirty page, one write spanning two regions and one used-ring update; histories: all sequences of length <= 4 (5 at thorough) over {SET_LOG_BASE, SET_LOG_BASE with a one-byte log (enough for region A, too small for region B: must be rejected and leave the log in force untouched), table A, table A+B, ADD B, REM B, write A, write B} ending in a write after a SET_LOG_BASE; schedules: N writers marking distinct bits of the same log byte, every interleaving of the atomic accesses (N=2,3; up to 6 at thorough). Oracle: log window == independent page-set bitmap (LSB first), guard bytes untouched, rejection iff unaligned region or log too small, final byte == OR of all writers' bits. Non-trivial = writes / set-ups / schedules whose log content was compared".into();
+    rep.rule = "inputs: 8 region layouts (1-4 regions sharing log bytes, adjacent, crossing a log-byte boundary, three unaligned ones) x log window at file offset 4096 / 8192 between guard pages x log sizes {needed-1, needed, needed+1, 4096} x writes (offset, len) over {0,1,4095,4096,4097,8191,8192,8193,end-4097,end-4096,end-2,end-1} x {0,1,2,4095,4096,4097,8191,8192,8193,size,to-end} through GuestMemory::write_slice, writes that start in an already dirty page, one write spanning two regions and one used-ring update; histories: all sequences of length <= 4 (5 at thorough) over {SET_LOG_BASE, SET_LOG_BASE with a one-byte log (enough for region A, too small for region B: must be rejected and leave the log in force untouched), table A, table A+B, ADD B, REM B, write A, write B} ending in a write after a SET_LOG_BASE, plus all such sequences one step longer that start from the two-region table (the state in which a SET_LOG_BASE can be rejected: accepted log, rejected log, reconnect, table change, write); schedules: N writers marking distinct bits of the same log byte, every interleaving of the atomic accesses (N=2,3; up to 6 at thorough). Oracle: log window == independent page-set bitmap (LSB first), guard bytes untouched, rejection iff unaligned region or log too small, final byte == OR of all writers' bits. Non-trivial = writes / set-ups / schedules whose log content was compared".into();
     rep.assumptions.push("the atomic accesses of the bitmap go through the verif-hooks AtomicU8 wrapper, which makes each of them a scheduling point; sequentially consistent scheduler (Relaxed ordering is irrelevant for a single RMW)".into());
 }
 
